@@ -189,6 +189,33 @@ class Report:
         return 1 if self.violations else 0
 
 
+class TimeLimitExceeded(Exception):
+    pass
+
+
+class time_limit:
+    """`with time_limit(s):` raises TimeLimitExceeded in the main thread after s seconds (SIGALRM); used around calls into the
+    real code whose non-termination is itself a violation (C14, C07)."""
+
+    def __init__(self, seconds):
+        self.seconds = int(seconds)
+
+    def __enter__(self):
+        import signal
+
+        def _raise(signum, frame):
+            raise TimeLimitExceeded(f"no result after {self.seconds} s")
+        self._old = signal.signal(signal.SIGALRM, _raise)
+        signal.alarm(self.seconds)
+        return self
+
+    def __exit__(self, *a):
+        import signal
+        signal.alarm(0)
+        signal.signal(signal.SIGALRM, self._old)
+        return False
+
+
 def load_known_findings():
     p = os.path.join(ROOT, 'known_findings.json')
     if not os.path.exists(p):
